@@ -619,6 +619,16 @@ func (p *termProfile) onWrite(ev WatchEvent, old client.Object, by *Task) {
 	}
 }
 
+func firstRead(t *Task, verb, kind, keyPart string) *ReadRec {
+	for i := range t.Reads {
+		r := &t.Reads[i]
+		if r.Verb == verb && r.Kind == kind && strings.Contains(r.Key, keyPart) {
+			return r
+		}
+	}
+	return nil
+}
+
 func lastRead(t *Task, verb, kind, keyPart string) *ReadRec {
 	for i := len(t.Reads) - 1; i >= 0; i-- {
 		r := &t.Reads[i]
@@ -696,13 +706,15 @@ func (p *termProfile) checkNodeFinalized(node *corev1.Node, t *Task) {
 		s.Violate("C09", "node-finalized-uncordoned", "termination finalizer of node %s removed while the node does not carry the disruption taint", node.Name)
 	}
 	T := deadlineOf(nc)
-	if pr := lastRead(t, "list", "Pod", "spec.nodeName="+node.Name); pr != nil && pr.Err == nil {
+	// the drain decision of this reconcile is taken on its first pod listing (Terminator.Drain); the later listing
+	// belongs to the volume-attachment step, and a pod bound to the node after the drain decision is not part of it
+	if pr := firstRead(t, "list", "Pod", "spec.nodeName="+node.Name); pr != nil && pr.Err == nil {
 		for _, o := range pr.Objs {
 			q := o.(*corev1.Pod)
-			if podTerminal(q) || !drainable(q, now) {
+			if podTerminal(q) || !drainable(q, pr.At) {
 				continue
 			}
-			s.Violate("C09", "node-finalized-undrained", "termination finalizer of node %s removed while drainable pod %s (terminating=%v) is in the pod list the task read", node.Name, q.Name, q.DeletionTimestamp != nil)
+			s.Violate("C09", "node-finalized-undrained", "termination finalizer of node %s removed while drainable pod %s (terminating=%v) is in the pod list the task's drain step read", node.Name, q.Name, q.DeletionTimestamp != nil)
 			break
 		}
 	} else {
